@@ -24,6 +24,13 @@
 //   I_frac     boundaries r*c/2 with odd c (fractional at odd ranks), values (r/2)*c at even ranks
 //   I_huge     0, 1, 2^53-1, 2^53, 2^53+1, 2^53+2, 2^53+4   (boundaries are the doubles of these)
 //   I_default  like D_default with integers strictly between the boundaries
+// LONG boundary lists: the spec's boundary list may contain filler "ranks" outside 0..MaxRank
+// (r < 0: below every value, r > MaxRank: above every value).  bound_of() continues every table's
+// formula there (negative doubles / adjacent subnormals below zero; values beyond the top rank), so
+// a list gets 17, 32, 100+ concrete boundaries with the value-equal ones at its first, middle or
+// last positions - also the real default list embedded in a longer, view-configured one.  The
+// expected counts vector (as long as the list + 1) still comes from TLC.
+#include <algorithm>
 #include <cmath>
 #include <cstdint>
 #include <cstdio>
@@ -79,6 +86,25 @@ struct Table
   std::string variant;
 
   double dval(int r) const { return std::ldexp(static_cast<double>(mult[r]), qexp); }
+
+  // per-table continuation for filler boundaries
+  int64_t step_mult = 1;   // doubles: mult of one rank step (fillers: r * step_mult quanta)
+  int64_t base_mult = 0;   // D_tiny: offset of positive ranks
+  double step_val   = 1.0; // longs / defaults: distance of two filler boundaries
+
+  // the concrete boundary for an (extended) rank
+  double bound_of(int r) const
+  {
+    if (r >= 0 && r <= max_rank)
+      return bval[r];
+    if (name == "D_small" || name == "D_huge" || name == "D_frac")
+      return std::ldexp(static_cast<double>(static_cast<int64_t>(r) * step_mult), qexp);
+    if (name == "D_tiny")
+      return std::ldexp(static_cast<double>(r < 0 ? static_cast<int64_t>(r) : base_mult + r), qexp);
+    if (r < 0)
+      return static_cast<double>(r) * step_val;
+    return bval[max_rank] + static_cast<double>(r - max_rank) * step_val;
+  }
 };
 
 static std::vector<double> real_default_boundaries()
@@ -106,6 +132,7 @@ static Table make_table(const std::string &name, int max_rank, std::mt19937_64 &
     t.qexp                    = ce[i];
     for (int r = 0; r <= max_rank; ++r)
       t.mult[r] = r * cm[i];
+    t.step_mult = cm[i];
     t.variant = "c=" + std::to_string(std::ldexp((double)cm[i], ce[i]));
   }
   else if (name == "D_tiny")
@@ -115,6 +142,7 @@ static Table make_table(const std::string &name, int max_rank, std::mt19937_64 &
     t.qexp                       = -1074;
     for (int r = 1; r <= max_rank; ++r)
       t.mult[r] = b + r;
+    t.base_mult = b;
     t.variant = "base=" + std::to_string(b);
   }
   else if (name == "D_huge")
@@ -133,6 +161,7 @@ static Table make_table(const std::string &name, int max_rank, std::mt19937_64 &
     t.qexp                    = ce[i];
     for (int r = 0; r <= max_rank; ++r)
       t.mult[r] = r * cm[i];
+    t.step_mult = cm[i];
     t.variant = "c=" + std::to_string(std::ldexp((double)cm[i], ce[i]));
   }
   else if (name == "I_small")
@@ -141,6 +170,7 @@ static Table make_table(const std::string &name, int max_rank, std::mt19937_64 &
     int64_t c                 = cs[pick(4)];
     for (int r = 0; r <= max_rank; ++r)
       t.ival[r] = r * c;
+    t.step_val = static_cast<double>(c);
     t.variant = "c=" + std::to_string(c);
   }
   else if (name == "I_frac")
@@ -153,7 +183,8 @@ static Table make_table(const std::string &name, int max_rank, std::mt19937_64 &
       t.recordable[r] = (r % 2 == 0);
       t.ival[r]       = (r / 2) * c;
     }
-    t.variant = "c=" + std::to_string(c);
+    t.step_val = static_cast<double>(c) / 2.0;
+    t.variant  = "c=" + std::to_string(c);
   }
   else if (name == "I_huge")
   {
@@ -163,7 +194,8 @@ static Table make_table(const std::string &name, int max_rank, std::mt19937_64 &
     int64_t v[]       = {0, 1, p53 - 1, p53, p53 + 1, p53 + 2, p53 + 4};
     for (int r = 0; r <= 6; ++r)
       t.ival[r] = v[r];
-    t.variant = "2^53";
+    t.step_val = 2.0;  // 2^53+6, 2^53+8, ... are representable; below zero -2, -4, ...
+    t.variant  = "2^53";
   }
   else if (name == "D_default" || name == "I_default")
   {
@@ -174,6 +206,7 @@ static Table make_table(const std::string &name, int max_rank, std::mt19937_64 &
     if (n == 0 || d[0] != 0.0)
       broken("default tables assume the first default boundary is 0 (rank 0 = value zero)");
     int mode  = pick(3);
+    t.step_val = 8.0;
     t.variant = "mode=" + std::to_string(mode);
     t.qexp    = -1;  // multiples of 0.5
     for (int i = 0; i < n; ++i)
@@ -470,9 +503,29 @@ struct Replay
     if (t.is_double != (cfg["kind"] == "double"))
       broken("table kind differs between spec and harness");
     std::vector<double> bounds;
+    bool padded = false;
     for (int r : branks)
-      bounds.push_back(t.bval[r]);
-    if (is_default)
+    {
+      bounds.push_back(t.bound_of(r));
+      if (r < 0 || r > max_rank)
+        padded = true;
+    }
+    for (size_t i = 1; i < bounds.size(); ++i)
+      if (!(bounds[i - 1] < bounds[i]) || !std::isfinite(bounds[i]))
+        broken("concrete boundary list of table " + tab + " is not strictly increasing");
+    for (int r : branks)  // fillers must lie outside the value range
+      if ((r < 0 && !(t.bound_of(r) < 0.0)) || (r > max_rank && !(t.bound_of(r) > t.bval[max_rank])))
+        broken("filler boundary inside the value range");
+    out["nbounds"] = bounds.size();
+    if (is_default && padded)
+    {
+      // the real default list embedded in a longer, explicitly configured one
+      std::vector<double> d = real_default_boundaries();
+      if (!std::includes(bounds.begin(), bounds.end(), d.begin(), d.end()))
+        broken("padded default table does not embed the default boundaries");
+      is_default = false;
+    }
+    else if (is_default)
     {
       if (bounds != real_default_boundaries())
         broken("default table does not reproduce the default boundaries");
